@@ -38,6 +38,7 @@ fn dispatch(prop: &str, rec: &mut Rec) {
         "C14" => checks::c14::run(rec),
         "C15" => checks::c15::run(rec),
         "C16" => checks::c16::run(rec),
+        "C17" => checks::c17::run(rec),
         "C11" => checks::c11::run(rec),
         _ => {
             eprintln!("unknown property {}", prop);
